@@ -16,6 +16,24 @@ from proto import enc
 WHAT = "IoosQc.Np primitives (Model/Np: numpy.ma data-under-mask semantics) vs the installed numpy"
 
 
+_RW = []
+
+
+def rolling_window_fn():
+    """`rolling_window` as /repo's flat_line_test defines it now (a nested function: compiled from the source text)."""
+    if not _RW:
+        import ast
+        import os
+        from pathlib import Path
+        tree = ast.parse((Path(os.environ.get("VERIF_REPO", "/repo")) / "ioos_qc/qartod.py").read_text())
+        fl = next(n for n in tree.body if isinstance(n, ast.FunctionDef) and n.name == "flat_line_test")
+        rw = next(n for n in fl.body if isinstance(n, ast.FunctionDef) and n.name == "rolling_window")
+        ns = {"np": np}
+        exec(compile(ast.Module(body=[rw], type_ignores=[]), "<rolling_window>", "exec"), ns)  # noqa: S102
+        _RW.append(ns["rolling_window"])
+    return _RW[0]
+
+
 def rand_cells(rng, n, p_nan=0.2, p_mask=0.3):
     """[(data Fraction|None(=NaN), mask bool)]: masked cells hold NaN or a finite number, unmasked cells may hold NaN."""
     out = []
@@ -56,7 +74,7 @@ def one(rng):
     op = rng.choice(["add", "sub", "mul", "divS", "divArr", "abs", "minimum", "diff", "masked_invalid", "set_inner_zeros", "set_tail_zeros",
                      "gt", "lt", "ge", "or", "set_where_b", "set_where", "set_zero_where_b", "set_first_last", "of_input",
                      "sign", "le", "eq_true", "any", "view_init_set", "view_tail_set", "view_tail_set_bools", "set_at0", "mask_or",
-                     "mask_and_xor", "filled", "of_input_junk", "pdiff", "mean_sign", "mul_s", "where_le_plus1", "set_idx", "great_circle"])
+                     "mask_and_xor", "filled", "of_input_junk", "pdiff", "mean_sign", "mul_s", "where_le_plus1", "set_idx", "great_circle", "rolling"])
     req = {"kind": "np", "op": op, "a": wire_cells(a), "b": wire_cells(b), "r": enc(r)}
     with np.errstate(all="ignore"):
         if op == "add":
@@ -132,6 +150,18 @@ def one(rng):
                 return req, [None if x != x else enc(F(float(x))) for x in np.asarray(got, dtype="float64").reshape(-1).tolist()]
             req["junk"] = enc(junk)
             return req, canon_ma(np.ma.masked_invalid(np.ma.array(inp, dtype=np.float64))) if n else []
+        if op == "rolling":
+            # the nested helper `rolling_window` of flat_line_test, compiled from /repo's CURRENT source, and the statements of
+            # `run_test` around it: row minima / maxima of the strided window, `np.ma.filled(… < tolerance, False)`, `np.insert`
+            w = rng.randint(0, n + 1)
+            req["w"] = w
+            rw = rolling_window_fn()
+            win = rw(A, w)
+            mn, mx = np.min(win, 1), np.max(win, 1)
+            tr = np.ma.filled(np.abs(mx - mn) < float(r), fill_value=False)
+            tr = np.insert(tr, 0, np.full((min(len(A), w),), False))
+            hide = lambda c: [[None, True] if m else [d, m] for d, m in c]  # noqa: E731  (the datum under a masked minimum is unspecified)
+            return req, [hide(canon_ma(mn)) if len(mn) else [], hide(canon_ma(mx)) if len(mx) else [], [bool(x) for x in np.asarray(tr).tolist()]]
         if op == "great_circle":
             from ioos_qc.utils import great_circle_distance
             n1 = max(n, 2)          # a single position is never handed to great_circle_distance (np.vectorize rejects size-0 inputs)
